@@ -48,9 +48,11 @@ def p_expr(e, style=None):
     return '%s.%s' % (p_expr(e[1], style), e[2])
   if k == 'if':
     return '(if %s then %s else %s)' % (p_expr(e[1], style), p_expr(e[2], style), p_expr(e[3], style))
+  if k == 'neg':
+    return '(-%s)' % p_expr(e[1], style)
   if k == 'fun':
     if e[1] == '!':
-      return '(!%s)' % p_expr(e[2][0], style)
+      return '!%s' % p_expr(e[2][0], style)
     return '%s(%s)' % (e[1], ', '.join(p_expr(x, style) for x in e[2]))
   if k == 'call':
     return '%s(%s)' % (e[1], p_args(e[2], style))
@@ -225,6 +227,8 @@ def c_expr(e, nm):
     return '(EVar %d)' % nm.var(e[1])
   if k == 'bin':
     return '(EBin %s %s %s)' % (BINOPS[e[1]], c_expr(e[2], nm), c_expr(e[3], nm))
+  if k == 'neg':
+    return '(EBin OSub (EInt (0)%%Z) %s)' % c_expr(e[1], nm)
   if k == 'list':
     return '(EList %s)' % c_list(c_expr(x, nm) for x in e[1])
   if k == 'rec':
@@ -381,6 +385,12 @@ class Gen:
         return self.lit(ty)
     if ty == 'int':
       k = r.random()
+      if k < 0.08 and self.p('operators'):
+        return ('neg', ('bin', r.choice(['+', '-']), self.expr_of('int', bound, depth - 1), self.expr_of('int', bound, depth - 1)))
+      if k < 0.14 and self.p('operators'):
+        lst = ('list', [self.lit('int') for _ in range(r.choice([3, 4, 5]))])
+        return ('fun', 'Element', [lst, ('fun', 'Abs', [('bin', r.choice(['+', '-']), self.expr_of('int', bound, 0),
+                                                          self.expr_of('int', bound, 0))])])
       if k < 0.45:
         return ('bin', r.choice(['+', '-', '*']), self.expr_of('int', bound, depth - 1), self.expr_of('int', bound, depth - 1))
       if k < 0.6 and self.p('ifthenelse'):
@@ -419,8 +429,14 @@ class Gen:
       return ('rec', [(f, self.expr_of(ft, bound, depth - 1)) for f, ft in ty[1]])
     raise AssertionError(ty)
 
-  def cond_of(self, bound, depth=1):
+  def cond_of(self, bound, depth=1, nest=2):
     r = self.r
+    if nest > 0 and self.p('operators') and r.random() < 0.35:
+      k = r.random()
+      if k < 0.3:
+        return ('fun', '!', [('bin', r.choice(['||', '&&']), self.cond_of(bound, depth, 0), self.cond_of(bound, depth, 0))])
+      a, b = self.cond_of(bound, depth, nest - 1), self.cond_of(bound, depth, nest - 1)
+      return ('bin', r.choice(['&&', '||']), a, b)
     ty = r.choice(['int', 'int', 'str'])
     op = r.choice(['<', '<=', '>', '>=', '==', '!='])
     a, b = self.expr_of(ty, bound, depth), self.expr_of(ty, bound, depth)
@@ -703,8 +719,42 @@ class Gen:
       d = self.gen_derived('D%d' % k)
       if d is not None:
         k += 1
+    if self.p('share_names'):
+      share_variable_names(self.prog, r)
     return self.prog
 
 
 def strip_internal(prog):
   return [{k: v for k, v in d.items()} for d in prog]
+
+
+POOL = ['x', 'y', 'z', 'a', 'b', 'k', 'n', 'u', 'v', 'w', 'p', 'q', 'r', 's', 't']
+
+
+def _rename_vars(x, f):
+  if isinstance(x, tuple):
+    if x and x[0] == 'var':
+      return ('var', f(x[1]))
+    return tuple(_rename_vars(y, f) for y in x)
+  if isinstance(x, list):
+    return [_rename_vars(y, f) for y in x]
+  return x
+
+
+def share_variable_names(prog, r):
+  """Renames the variables of every rule to a small common pool (in order of appearance, pool shuffled once
+  per program), so that callers, callees and the locals of their combines use the same names: a pure
+  renaming, which must not matter, but provokes variable capture when a predicate is injected."""
+  for d in prog:
+    if d.get('ext'):
+      continue
+    for rule in d['rules']:
+      seen = []
+      _rename_vars((rule['head'], rule.get('body')), lambda v: (seen.append(v) if v not in seen else None) or v)
+      n = len(seen)
+      pool = POOL[:max(n + 1, 5)] if n + 1 <= len(POOL) else POOL + ['v%d' % i for i in range(n)]
+      chosen = r.sample(pool, n)
+      names = dict(zip(seen, chosen))
+      rule['head'] = _rename_vars(rule['head'], lambda v: names[v])
+      if rule.get('body') is not None:
+        rule['body'] = _rename_vars(rule['body'], lambda v: names[v])
